@@ -27,6 +27,7 @@ type StressOpts struct {
 	CloseMid bool // Close races with everything (C10)
 	BG       bool // background sync + compaction workers
 	Prefill  int
+	Grow     bool // workers mostly insert NEW keys: the index splits while compaction and scans run
 	Seed     int64
 	MaxSeg   uint32
 }
@@ -97,7 +98,18 @@ func Stress(rec *Rec, o StressOpts) StressResult {
 			}
 			k := o.Keys[r.Intn(len(o.Keys))]
 			var op Op
-			switch x := r.Intn(100); {
+			x := r.Intn(100)
+			if o.Grow {
+				// a key of this worker's own range, mostly never used before; overwrites make garbage for compaction
+				k = o.Keys[(t*o.OpsEach*2+i*2+r.Intn(2))%len(o.Keys)]
+				if x >= 50 && i > 0 {
+					k = o.Keys[(t*o.OpsEach*2+r.Intn(2*i))%len(o.Keys)]
+				}
+				if x < 70 {
+					x = 0
+				}
+			}
+			switch {
 			case x < 35:
 				vl := 0
 				if r.Intn(6) == 0 {
@@ -121,7 +133,11 @@ func Stress(rec *Rec, o StressOpts) StressResult {
 				s.Do(Op{Op: "get", K: k, T: t})
 			}
 			atomic.AddInt64(&progress, 1)
-			if (i+1)%5 == 0 {
+			every := 5
+			if o.Grow {
+				every = 20 // workers use disjoint key ranges: few candidate linearizations even without frequent barriers
+			}
+			if (i+1)%every == 0 {
 				bar.wait()
 			}
 		}
@@ -146,14 +162,35 @@ func Stress(rec *Rec, o StressOpts) StressResult {
 					return
 				default:
 				}
-				switch r.Intn(7) {
+				choice := r.Intn(7)
+				if o.Grow && r.Intn(10) < 7 {
+					choice = 0 // growth mode: compaction runs most of the time while the index splits
+				}
+				switch choice {
 				case 0, 1:
 					s.Do(Op{Op: "compact", T: mt})
 				case 2:
 					s.Do(Op{Op: "sync", T: mt})
 				case 3:
+					// a backup taken while the writers keep running, opened right away (C12)
 					nb++
-					s.Do(Op{Op: "backup", T: mt, Dir: fmt.Sprintf("%s-bk%d", o.Dir, nb)})
+					bdir := fmt.Sprintf("%s-bk%d", o.Dir, nb)
+					// (a Backup that overlaps or follows Close is not constrained by C12: only opened in histories without Close races)
+					if s.Do(Op{Op: "backup", T: mt, Dir: bdir}) == nil && !o.CloseMid {
+						s.mu.Lock()
+						uni := make(map[string][]byte, len(s.Universe))
+						for k, v := range s.Universe {
+							uni[k] = v
+						}
+						s.mu.Unlock()
+						db2, obs := OpenObserved(cfg, o.Root, bdir, uni)
+						ev := obs.Event("backup_opened")
+						ev["dir"] = bdir
+						rec.Emit(ev)
+						if db2 != nil {
+							db2.Close()
+						}
+					}
 				case 4:
 					// a whole scan, stepped
 					sid := i + 1
